@@ -3,6 +3,7 @@
 Decides: no read past the given length in MediaType::parseRaw and what it calls, agreement of the matched literals with the
 printed ones, every syntactic failure raises HttpError(Unsupported_Media_Type), case folding with tolower on both sides,
 rounding of the quality value.  Quality formatting and parameter round trip are value-level and not decided."""
+import re
 from .. import cfg, lib, facts, tables
 from ..facts import AnalysisBroken, strip_tmpl
 
@@ -63,6 +64,20 @@ def run(ck):
             elif r[en].lower() != lit.lower().lstrip("+"):
                 probs.append("%s is matched as %r but printed as %r" % (en.rsplit("::", 1)[1], r[en], lit))
         ck.ob("C18-R2", "table:%s" % kind, not probs and len(r) >= 2, pr.loc, pr, "; ".join(probs[:3]) or "%d literals agree" % len(r))
+
+    # a scan that stops at delimiters must not come before the table lookup of a literal that contains one of them: the scanned
+    # token can then never be that literal ("schema+json" after a scan that stops at '+')
+    scans = [(e, set(re.findall(r"'(.)'", (e.get("args") or [{}])[0].get("t") or ""))) for e in pr.calls(lambda e: strip_tmpl(e.get("callee") or "") == "Pistache::match_until")]
+    lits_all = {v for v in wmap.values() if isinstance(v, str) and v}
+    cmps = [(e, a_["const"][2:]) for e in pr.events("call") for a_ in e.get("args", [])
+            if isinstance(a_.get("const"), str) and a_["const"].startswith("s:") and a_["const"][2:] in lits_all | {x.lstrip("+") for x in lits_all}]
+    ck.require(len(cmps) >= 15, "table comparisons found in MediaType::parseRaw: %d" % len(cmps))
+    dpr = cfg.dominators(pr)
+    cut = [(sc, lit, ce) for sc, dl in scans if dl for ce, lit in cmps if (set(lit) & dl) and cfg.ev_dominates(dpr, sc, ce)]
+    ck.ob("C18-R2", "table-literals-vs-scan-delimiters", not cut, cut[0][0].loc if cut else pr.loc, pr,
+          "no table literal is looked up after a scan that stops inside it (%d scans, %d comparisons)" % (len(scans), len(cmps)) if not cut else
+          "the scan `%s` stops at %s, and the token it delimits is then compared with %r: a media type written with that literal is "
+          "never recognised again" % ((cut[0][0].get("t") or "")[:50], sorted(set(cut[0][1]) & dict((id(a), b) for a, b in scans)[id(cut[0][0])]), cut[0][1]))
 
     # ---------------- R3 ----------------
     # every way parseRaw reports a failure -- a throw in the routine, in one of its lambdas (the `raise` helper) or in a file-local helper
